@@ -241,6 +241,73 @@ def sweep_one(job):
     return res
 
 
+def repl_session(cmds, wait=1.0):
+    """runs `jaq -n repl` on a pseudo-terminal, enters the commands and end-of-input; -> (exit status or None, terminal output)"""
+    import pty
+    J = cli.jaq_bin()
+    pid, fd = pty.fork()
+    if pid == 0:
+        os.environ["RUST_BACKTRACE"] = "0"
+        os.environ["HOME"] = tempfile.gettempdir()
+        os.environ["NO_COLOR"] = "1"
+        try:
+            os.execv(J, [J, "-n", "repl"])
+        finally:
+            os._exit(127)
+    out = b""
+
+    def rd(t):
+        nonlocal out
+        end = time.time() + t
+        while time.time() < end:
+            r, _, _ = select.select([fd], [], [], 0.1)
+            if r:
+                try:
+                    data = os.read(fd, 4096)
+                except OSError:
+                    return False
+                if not data:
+                    return False
+                out += data
+        return True
+    alive = rd(wait)
+    for c in cmds:
+        if not alive:
+            break
+        try:
+            os.write(fd, c + b"\n")
+        except OSError:
+            break
+        alive = rd(wait)
+    for _ in range(4):      # end of input at every nesting level of repl
+        try:
+            os.write(fd, b"\x04")
+        except OSError:
+            break
+        rd(0.3)
+    st = None
+    for _ in range(50):
+        try:
+            p, status = os.waitpid(pid, os.WNOHANG)
+        except ChildProcessError:
+            break
+        if p:
+            st = os.waitstatus_to_exitcode(status)
+            break
+        time.sleep(0.1)
+    if st is None:
+        try:
+            os.kill(pid, 9)
+            os.waitpid(pid, 0)
+        except OSError:
+            pass
+    try:
+        os.close(fd)
+    except OSError:
+        pass
+    return st, out
+
+
 def excepted_panic(msg):
     return "capacity overflow" in msg or "memory allocation" in msg
 
@@ -313,6 +380,14 @@ def custom(ctx):
         evaluations += 1
         if rc == 101 or rc < 0 or b"panicked" in err:
             viol.append(dict(key="cli-filter-crash", what="jaq %r: status %d, %r" % (j["args"], rc, err[-300:]), case=dict(filter=repr(j["args"]), kind="cli-filter"), impl=None))
+    # filter texts entered at the interactive prompt (`repl` reads from the terminal: run under a pseudo-terminal)
+    for cmds in ([b"1 + 1", b".", b"$undefined", b"input_filename", b"error", b"[limit(3; repeat(1))]", b"{", b"\"\\(1)\""],
+                 [b"def f: f; 1", b"..", b"1 as $x | repl", b"$x"]):
+        evaluations += 1
+        st, out = repl_session(cmds)
+        if st != 0 or b"panicked" in out or (b"\n2\r\n" not in out and cmds[0] == b"1 + 1"):
+            viol.append(dict(key="repl-crash", what="the commands %r entered at the `repl` prompt: exit status %s, terminal output ends with %r" % (cmds, st, out[-300:]),
+                             case=dict(filter="repl", kind="repl", commands=[c.decode() for c in cmds]), impl=None))
         else:
             stats["cli_filter_ok"] = stats.get("cli_filter_ok", 0) + 1
 
